@@ -228,6 +228,29 @@ pub fn stories(prop: &str) -> Vec<Scenario> {
             v.push(f1("C04"));
         }
         "C19" => {
+            // a finished bar that never fitted the terminal is reaped by a draw; a later println
+            // must not clear rows for it (there are none on the screen)
+            v.push(multi(
+                "C19",
+                191,
+                10,
+                3,
+                0,
+                0,
+                vec![
+                    Op::new("mp_println").s("hello"),
+                    add(0, 0, 10, 0, "{obs}top"),
+                    Op::new("add").n(0).n(0).n(1).n(10).n(0).n(8).s("{obs}{msg}").s("fin").s("").s("abcdefghijklmnopqrstuvwxyz012345678"),
+                    Op::new("tick").n(0),
+                    Op::new("drop_all").n(1),
+                    Op::new("mp_remove").n(0),
+                    add(0, 0, 10, 0, "{obs}d"),
+                    Op::new("tick").n(2),
+                    Op::new("tick").n(2),
+                    Op::new("mp_println").s("x"),
+                    Op::new("tick").n(2),
+                ],
+            ));
             let mut ops = vec![];
             for i in 0..6 {
                 ops.push(add(0, 0, 10, 0, &format!("{{obs}}B{i} {{pos}}")));
